@@ -432,7 +432,9 @@ fn family(parser: &str) -> &str {
 /// class of the declared length instead
 fn panic_sig(p: &PanicRec, input: &[u8]) -> String {
     if p.msg.contains("capacity overflow") && risky(input) {
-        "alloc/capacity-overflow-panic-on-huge-declared-length".to_string()
+        // keyed by the code that asked for the allocation: a new reader that pre-sizes from the
+        // declared length is a new signature
+        format!("alloc/capacity-overflow-panic-on-huge-declared-length@{}", p.via)
     } else if p.msg.contains("attempt to negate with overflow") && p.loc.contains("cbor_event") {
         // one defect below many serializers (checked build only)
         "cbor_event/write_negative_integer/negate-overflow-for-minus-2^63".to_string()
@@ -848,6 +850,14 @@ fn fork_judge(ctx: &mut Ctx, parser: &str, input: &[u8], call: &dyn Fn(&[u8]) ->
             let class = if risky(input) && sig == 6 { "allocation-of-huge-declared-length-fails".to_string() } else { input_class(input).to_string() };
             ctx.violation(&format!("abort/{}/{}", cls, class), json!({"parser": parser, "input": hx(&input[..input.len().min(300)]), "signal": sig}));
         }
+        ForkOutcome::HugeAlloc(who, site, bytes) => {
+            ctx.nontrivial(vkit::rng::fnv64(&v));
+            ctx.bucket("fork.huge-allocation-requested");
+            ctx.violation(
+                &format!("abort/allocation-of-huge-declared-length@{}", who),
+                json!({"parser": parser, "input": hx(&input[..input.len().min(300)]), "requested_bytes": bytes, "requested_by": who, "library_site": site, "origin": origin}),
+            );
+        }
         ForkOutcome::Timeout => ctx.violation(&format!("{}/does-not-return-within-20s", parser), json!({"input": hx(&input[..input.len().min(300)])})),
         ForkOutcome::Exit(c) => {
             ctx.bucket("skipped.child-exit-unclassified");
@@ -1024,6 +1034,16 @@ fn gen_text(r: &mut Rng, kind: TextKind, valid_cbor: &[u8]) -> String {
             _ => r.wide_u64().to_string(),
         },
         TextKind::Json => {
+            /// a JSON string body: fixed edge cases, or pieces of 1-, 2-, 3- and 4-byte characters with hex-looking prefixes
+            fn jstr(r: &mut Rng) -> String {
+                if r.below(3) == 0 {
+                    return ["", "a", "0x00ff", "0xzz", "\\ud800", &"x".repeat(65)][r.usize(6)].to_string();
+                }
+                let pieces = ["a", "é", "€", "😀", "0x", "0X", "ff", "zz", " ", "\\n", "\\u00e9", "1", "-", "ß", "日本", "0"];
+                let top = if r.below(8) == 0 { 40 } else { 5 };
+                let n = 1 + r.usize(top);
+                (0..n).map(|_| pieces[r.usize(pieces.len())]).collect::<String>()
+            }
             fn j(r: &mut Rng, d: u32) -> String {
                 match if d == 0 { r.below(8) } else { r.below(12) } {
                     0 => "null".into(),
@@ -1031,11 +1051,24 @@ fn gen_text(r: &mut Rng, kind: TextKind, valid_cbor: &[u8]) -> String {
                     2 => r.wide_u64().to_string(),
                     3 => format!("-{}", r.wide_u64()),
                     4 => "1.5".into(),
-                    5 => format!("\"{}\"", ["", "a", "0x00ff", "0xzz", "\\ud800", &"x".repeat(65)][r.usize(6)]),
+                    5 => format!("\"{}\"", jstr(r)),
                     6 => "99999999999999999999999999".into(),
                     7 => "1e400".into(),
                     8 => format!("[{}]", (0..r.usize(3)).map(|_| j(r, d - 1)).collect::<Vec<_>>().join(",")),
-                    9 => format!("{{{}}}", (0..r.usize(3)).map(|_| format!("\"{}\":{}", ["a", "1", "-5", "0x00", "int", "bytes", "list", "map", "k", "v", "constructor", "fields", "string", "type", "keyHash", "scripts", "slot", "required"][r.usize(18)], j(r, d - 1))).collect::<Vec<_>>().join(",")),
+                    9 => format!(
+                        "{{{}}}",
+                        (0..r.usize(3))
+                            .map(|_| {
+                                let k = if r.below(4) == 0 {
+                                    jstr(r)
+                                } else {
+                                    ["a", "1", "-5", "0x00", "int", "bytes", "list", "map", "k", "v", "constructor", "fields", "string", "type", "keyHash", "scripts", "slot", "required"][r.usize(18)].to_string()
+                                };
+                                format!("\"{}\":{}", k, j(r, d - 1))
+                            })
+                            .collect::<Vec<_>>()
+                            .join(",")
+                    ),
                     10 => format!("{{\"int\":{}}}", j(r, 0)),
                     _ => format!("{{\"map\":[{{\"k\":{},\"v\":{}}}]}}", j(r, d - 1), j(r, d - 1)),
                 }
